@@ -65,7 +65,7 @@ def check(tier, seed, replay=None):
     if replay:
         cases = [json.load(open(replay))]
     else:
-        kcases, meta = lin.gen_all("quick", seed, per_family_quick=(250 if tier == "quick" else 4000))
+        kcases, meta = lin.gen_all("quick", seed, per_family_quick=(250 if tier == "quick" else 20000))
         cases = kcases + perturbed([c for c in kcases if c.get("fam") in ("A", "C", "D", "F")][::3], seed) + tiny_models()
         # compiled models come from the text front end: every case is rendered to source first
         cases = [{"id": c["id"], "text": render.model_text(c, rewrite.plain)} for c in cases]
